@@ -11,6 +11,11 @@ CHECKS = {
             "Every set of <=2 (thorough <=3) placed rules out of 34 rule texts x 3 placements, and 25 small sets x 5 blocking modes x 4 protection states x filtering on/off x 4 client kinds x 5 blocked-service settings; each with 7-9 names x 5 qtypes x 2 client addresses run through HandleBefore+handleDNSRequest of a real server (real filtering engine, real client storage, virtual clock). Oracle: blocked => mode's synthetic response and empty upstream log; otherwise exactly one upstream call and the upstream records and question intact.",
             "single-rule matching delegated to urlfilter's Match; composition, gates and response table are modelled independently; $dnsrewrite, safe browsing/parental/safe search excluded.",
             "DESIGN.md §4 C01", "E1-stateless"),
+    "C02": ("exploration",
+            "bounded exhaustive enumeration of (upstream answer section x rule set x configuration x query type) through the real pipeline with a scripted upstream, against a first-blocked-record reference",
+            "All answer sections of length <=3 (thorough <=4) over 15 record kinds with CNAME owner chaining, the offending record at every position, x 10 rule sets (names, IPv4/IPv6 literals, exceptions, $important, allow-listed/excepted queried name, hosts-style, $dnstype) x 5 modes + 5 flag variants x 5 query types; blocked => the mode's response for the query's type without upstream data and a log entry carrying the original answer; else the upstream answer unchanged.",
+            "single-rule matching delegated to urlfilter; with AAAA disabled HTTPS records are accepted with or without ipv6hint.",
+            "DESIGN.md §4 C02", "E1-stateless"),
     "C04": ("model_checking",
             "explicit-state BFS over operation histories executed on the real client.Storage, implementation-dump dedup, list-of-clients reference model checked on every transition",
             "All histories of add/update(rename, change ids, switch own settings)/remove/DHCP-flip up to depth 3 (quick: 2 names, 8 colliding identifiers incl. nested/unmasked/offset CIDRs, 2 IPs, MAC, ClientID) or 4 (thorough: 3 names, 16 identifiers); after every transition accept/reject, unchanged-on-reject, index-map consistency and every lookup path are compared with the reference.",
